@@ -37,7 +37,8 @@ REQUIRED = dict(monitors=['chords', 'exp(-tau)', 'depth', 'depth>=bare', 'depth<
                          'early-exit-observed', 'contrib:CIA', 'contrib:Rayleigh', 'contrib:SimpleClouds',
                          'contrib:FlatMie', 'contrib:LeeMie', 'nlayers:2', 'rerun:evaluated-after-change',
                          'fault:fired:temperature', 'fault:fired:chemistry', 'fault:fired:contribution', 'fault:fired:pressure',
-                         'several:evaluation-judged', 'wn-dtype:i', 'components:judged', 'T-route:mixin'])
+                         'several:evaluation-judged', 'wn-dtype:i', 'components:judged', 'T-route:mixin',
+                         'rerun:deepcopy', 'rerun:original-judged-after-its-copy-was-used'])
 TOL = 1e-10
 CUT = float(np.exp(-10.0))
 
@@ -358,6 +359,8 @@ def perturb_model(rng, model, max_changes=3):
             continue
         if n in ('atm_min_pressure', 'atm_max_pressure'):
             new = old * float(10 ** rng.uniform(-0.5, 0.5))
+        elif n == 'T_scale':
+            new = float(np.clip(old * rng.uniform(0.8, 1.2), 0.5, 1.6))         # the TempScaler mixin's factor
         elif n == 'T' or n.startswith('T_'):
             new = float(np.clip(old * rng.uniform(0.6, 1.5), 120.0, 3200.0))
         elif n in ('planet_mass', 'planet_radius'):
@@ -384,7 +387,15 @@ def wl_rerun(ctx, rng):
         return
     oracle(ctx, snap, spec)
     changes_all = []
+    originals = []
     for k in range(int(rng.integers(1, 4))):
+        if rng.random() < 0.3:
+            # another route to a model: ``copy.deepcopy`` of the live one (a reference kept aside before a scan); the
+            # workload goes on with the COPY, the original is evaluated and judged once more at the end
+            import copy
+            originals.append(model)
+            model = copy.deepcopy(model)
+            ctx.observe('rerun:deepcopy')
         changes = perturb_model(rng, model)
         changes_all.append([(n, float(a), float(b)) for n, a, b in changes])
         ctx.feature(summary=world.spec_summary(spec), new_method=spec['new_method'], changes=changes_all)
@@ -402,6 +413,11 @@ def wl_rerun(ctx, rng):
         except InvalidModelException as e:
             ctx.license(type(e).__name__)     # a perturbed atmosphere may legitimately be rejected
             return
+        except TypeError:
+            zb = np.asarray(model.altitude_boundaries, dtype=float)
+            ctx.feature(zb_finite=bool(np.all(np.isfinite(zb))), zb_top=float(zb[-1]), Rp=float(model.planet.fullRadius),
+                        dz_min=float(np.min(model.deltaz)))
+            raise
         s2 = _state['snap']
         _state['snap'] = None
         if not np.all(np.isfinite(s2['zb'])) or s2['zb'][-1] > 2.0 * s2['Rp']:
@@ -412,6 +428,11 @@ def wl_rerun(ctx, rng):
         s2['ret_trans'] = np.array(trans, dtype=float)
         ctx.observe('rerun:evaluated-after-change')
         oracle(ctx, s2, spec)
+    for m in originals:
+        so = run_model(ctx, m, build=False)
+        if so is not None and np.all(np.isfinite(so['zb'])) and so['zb'][-1] <= 2.0 * so['Rp']:
+            ctx.observe('rerun:original-judged-after-its-copy-was-used')
+            oracle(ctx, so, spec)
     ctx.sig('rerun', spec['nlayers'], spec['new_method'], spec['magnitude'], tuple(n for ch in changes_all for n, _, _ in ch),
             round(spec['planet_mass'], 6))
     ctx.sample({'workload': 'rerun', 'world': world.spec_summary(spec), 'changes': changes_all})
